@@ -670,3 +670,23 @@ def extremes_list(rng, n):
     while len(out) < n:
         out.append(extremes(rng))
     return out
+
+
+def sibling(text, rng):
+    """a drawing that differs from `text` in one channel only and has the same cells: other content (of the same width)
+    inside a quoted label, or another declaration in the legend. None when `text` has neither."""
+    import re
+    rows = text.split("\n")
+    for i, row in enumerate(rows):
+        m = re.search(r'"([^"\\]+)"', row)
+        if m and "# Legend:" not in "\n".join(rows[:i + 1]):
+            inner = m.group(1)
+            repl = "".join(("y" if ch == "x" else "x") if (ch.isascii() and ch.isalnum()) else ch for ch in inner)
+            if repl == inner:
+                repl = "".join("x" if (ch.isascii() and not ch.isspace()) else ch for ch in inner)
+            if repl != inner:
+                rows[i] = row[:m.start(1)] + repl + row[m.end(1):]
+                return "\n".join(rows)
+    if "# Legend:" in text and "fill:" in text:
+        return text.replace("fill:", "stroke:", 1)
+    return None
